@@ -18,7 +18,23 @@ def showOutcome : Outcome Arr → String
   | .err _ => "err"
   | .panic _ => "panic"
 
+def kindOf (res : String) : String := if res == "panic" then "panic" else "ok"
+
 def firstFail (xs : List (Option String)) : Option String := xs.findSome? id
+
+/-- the variables some decision node of the given diagrams is labelled with, plus `x` (no duplicates) -/
+def usedVars (As : List Arr) (x : Nat) : List Nat :=
+  (As.flatMap fun A => (A.toList.drop 2).map (·.var)).foldl (fun acc y => if acc.contains y then acc else acc ++ [y]) [x]
+
+/-- `r(v) = f(v[x := g v])` on every valuation of the USED variables (all others false): the three
+    diagrams read no other variable, so this is the identity on all `2ⁿ` valuations -/
+def compositionHolds (f g r : Arr) (x : Nat) : Option Bool :=
+  let used := usedVars [f, g, r] x
+  if used.length > maxTT then none else
+  some ((List.range (2 ^ used.length)).all fun i =>
+    let v : Nat → Bool := fun y => match used.idxOf? y with | some j => (i >>> j) % 2 == 1 | none => false
+    let gv := evalArr g v
+    evalArr r v == evalArr f (fun y => if y = x then gv else v y))
 
 /-- brute-force support -/
 def mentions (A : Arr) (x : Nat) : Bool := (A.toList.drop 2).any (·.var == x)
@@ -30,14 +46,20 @@ def handle (key : String) (ins obs : List String) : Verdict :=
     | some f, some g, some x =>
       let n := numVars f
       let model := showOutcome (substitute f x g)
-      let valid := wfoB f n && wfoB g n && n + 1 < 65536
       let path := if !mentions f x then "unchanged" else if !mentions g x then "safe" else "clash"
+      -- the property: no panic and the composition, for operands over fewer than the maximum number of
+      -- variables; at 65 535 variables only the clash path may panic (documented: no proxy variable)
+      let valid := wfoB f n && wfoB g n && numVars g == n && (n + 1 < 65536 || path != "clash")
       let fail :=
         if !valid then none else
         match parseArr? res with
         | some r => firstFail [
             if wfoB r n then none else some "result-not-a-valid-diagram",
-            if n > maxTT then none else
+            if n > maxTT then
+              (match compositionHolds f g r x with
+               | some false => some "not-the-composition"
+               | _ => none)
+            else
               if (List.range (2 ^ n)).all fun i =>
                 let v := valOfIndex n i
                 let gv := evalArr g v
@@ -50,7 +72,8 @@ def handle (key : String) (ins obs : List String) : Verdict :=
         (if isCanon f && isCanon g then [] else ["noncanonical-operand"])
       { agree := model == res, model, fail,
         nontrivial := valid && path != "unchanged" && g.size > 2,
-        tags := [path, s!"n{n}", if valid then "valid" else "invalid-input"] ++ extra }
+        tags := [path, s!"n{n}", if valid then "valid" else (if n + 1 < 65536 then "invalid-input" else "max-vars-clash"),
+          kindOf res] ++ (if n ≥ 300 then ["boundary"] else []) ++ extra }
     | _, _, _ => Verdict.bad "args"
   | _, _, _ => Verdict.bad ("key " ++ key)
 
